@@ -1,0 +1,15 @@
+//go:build verif
+
+// Lemma functions for /verif/cmd/govc (compiled only under the build tag "verif", never called).
+
+package labels
+
+// verifLemmaBlockIndexRoundTrip: the packed block index round-trips over its documented range.
+func verifLemmaBlockIndexRoundTrip(x, y, z int32) (x2, y2, z2 int32) {
+	return DecodeBlockIndex(EncodeBlockIndex(x, y, z))
+}
+
+// verifLemmaBlockIndexInjective: distinct block coordinates in range get distinct packed indices.
+func verifLemmaBlockIndexInjective(x, y, z, x2, y2, z2 int32) (a, b uint64) {
+	return EncodeBlockIndex(x, y, z), EncodeBlockIndex(x2, y2, z2)
+}
